@@ -146,7 +146,7 @@ Definition run (req : sx) : sx :=
   | L [A 30; items] => CfgRun.run_cfg items
   (* 31: one byte interval's storage through a history *)
   (* 40-42: protobuf writer / reader / round trip at message level *)
-  | L (A 40 :: _) | L (A 41 :: _) | L (A 42 :: _) => ProtoRun.run_proto req
+  | L (A 40 :: _) | L (A 41 :: _) | L (A 42 :: _) | L (A 43 :: _) => ProtoRun.run_proto req
   | L [A 31; size; init; contents; items] => ByteRun.run_bytes size init contents items
   | _ => L [A (-2)]
   end.
